@@ -3,6 +3,7 @@ package midicatdrv
 import (
 	"fmt"
 	"io"
+	"os"
 	"os/exec"
 	"sync"
 
@@ -42,6 +43,13 @@ func (o *out) fireCmd() error {
 		o.cmd = nil
 		return err
 	}
+
+	// when the process ends by itself (e.g. it crashed), nobody consumes the pipe anymore:
+	// close its reading side, so that Send returns an error instead of blocking forever
+	go func(proc *os.Process, rd *io.PipeReader) {
+		proc.Wait()
+		rd.Close()
+	}(o.cmd.Process, o.rd)
 
 	return err
 }
